@@ -96,6 +96,34 @@ def witness_c12c():
     return dict(mirror=m, steps=steps)
 
 
+def witness_c12d(ctx):
+    """known finding C12-d: two ADJACENT equal azimuths (one direction measured twice) are merged into one block by the reader, which starts a new
+    azimuth only where the label changes -- runs first on every run; the shared history generator keeps equal azimuths apart"""
+    import hvsrpy
+    freq = np.geomspace(0.4, 17.0, 24)
+    wr = np.random.default_rng(124)
+    rows = [hvgen.gen_curve_set(wr, freq, 3, outliers=False) for _ in range(2)]
+    m = Mirror.az(1, freq, rows, [15.0, 15.0])
+    fname = os.path.join(WORK, "c12_witness_d.csv")
+    try:
+        hvsrpy.write_hvsr_object_to_file(m.obj, fname)
+        back = hvsrpy.read_hvsr_object_from_file(fname)
+        n_back = len(back.hvsrs)
+        bad = [] if n_back == 2 and [len(x.amplitude) for x in back.hvsrs] == [3, 3] and list(back.azimuths) == [15.0, 15.0] else ["n_azimuths"]
+        err = None
+    except Exception as e:     # noqa: a reader that fails on the merged block is the same finding
+        n_back, bad, err = None, ["n_azimuths"], f"{type(e).__name__}: {e}"[:120]
+    finally:
+        if os.path.exists(fname):
+            os.remove(fname)
+    ctx.supporting["witness_c12d_azimuths_read_back"] = n_back
+    if bad:
+        ctx.violation("read-back-equals-written-object",
+                      dict(case=dict(kind="A", freq=freq.tolist(), rows_per_az=[r.tolist() for r in rows], azimuths=[15.0, 15.0], ops=[]),
+                           adjacent_equal_azimuths=True, differing=bad, azimuths_written=2, azimuths_read_back=n_back, error=err),
+                      seam="read_hvsr_object_from_file")
+
+
 def run(ctx):
     ctx.rule = ("histories (range updates, FDWRA, time masks, manual rejections) on traditional and azimuthal objects, then write -> independent parse of the file "
                 "(json header, labels, numeric columns) -> read back; compared bit for bit: frequencies, curves, masks, search range, peaks, every statistic; derived columns "
@@ -105,6 +133,7 @@ def run(ctx):
     import hvsrpy
     rng = np.random.default_rng(ctx.seed)
     n = ctx.budget(100, 1500)
+    witness_c12d(ctx)
     hists = [witness_c12c()]
     for i in range(1, n):
         kind = "T" if i % 2 == 0 else "A"
